@@ -334,7 +334,9 @@ spif_tok_eval(spif_tok_t self)
                 pstr++;
             } else {
                 /* Handle any backslashes that are escaping delimiters or quotes. */
-                if ((*pstr == self->escape) && (IS_DELIM(*(pstr + 1)) || IS_QUOTE(*(pstr + 1)))) {
+                /* (The end of the string is neither:  with a separator set, strchr() would "find" the
+                   terminator there, and the scan would carry on behind the string.) */
+                if ((*pstr == self->escape) && *(pstr + 1) && (IS_DELIM(*(pstr + 1)) || IS_QUOTE(*(pstr + 1)))) {
                     /* Incrementing pstr here moves us past the backslash so that the line
                        below will copy the next character to the new token, no questions asked. */
                     pstr++;
